@@ -1,7 +1,7 @@
 SPECIFICATION Spec
 CONSTANTS
-  Alphabet = {"h", ":", "/", "#", "a"}
-  L = 4
+  Alphabet = {":", "/", "#", "a"}
+  L = 3
   N = 3
 INVARIANT StemAgrees
 CHECK_DEADLOCK FALSE
